@@ -116,6 +116,7 @@ for sz in SIZES_ALL:
 for sz in ['e8', 'e16', 'e12']:
     add('k2_range', 'drain_typed_' + sz, 'drain_h::<%s>(true, false, DROP)' % TY[sz], props=['C02', 'C03', 'C05'],
         tier=tier_for(sz, {'e8'}), cost=250 if sz in SLOW else 25, inputs=IN_RANGE)
+add('k2_range', 'drain_typed_d8_b3', 'drain_hb::<D8>(true, true, DROP, 3)', props=['C02', 'C03'], tier='q', kind='bounded', bound='typed element type with drop glue: at most 3 unyielded range elements (core slice drop glue loop unwound)', attrs=['#[kani::unwind(5)]'], cost=60, inputs=IN_RANGE)
 add('k2_range', 'drain_forget_e8', 'drain_h::<E8>(false, true, FORGET)', props=['C07', 'C03'], tier='q', cost=5, inputs=IN_RANGE)
 add('k2_range', 'drain_typed_forget_e8', 'drain_h::<E8>(true, false, FORGET)', props=['C07'], tier='q', cost=5, inputs=IN_RANGE)
 add('k2_range', 'drain_forget_e3', 'drain_h::<E3>(false, true, FORGET)', props=['C07'], tier='t', cost=30, inputs=IN_RANGE)
